@@ -493,7 +493,7 @@ func c20history(c *Ctx, init zapcore.Level, reqs []c20req, class string) {
 		nt = "1"
 	}
 	c.Emit(L(I(2), Z(int64(init)), L(rs...)), L(os...),
-		map[string]string{"nt": nt, "class": class, "reqs": fmt.Sprint(len(reqs))})
+		map[string]string{"nt": nt, "class": class, "reqs": fmt.Sprint(len(reqs)), "bodies": c20bodyLens(reqs)})
 }
 
 // served: the same through a real net/http server and client; the request abstraction and the
@@ -545,7 +545,7 @@ func c20served(c *Ctx, init zapcore.Level, reqs []c20req, class string) {
 		nt = "1"
 	}
 	c.Emit(L(I(2), Z(int64(init)), L(rs...)), L(os...),
-		map[string]string{"nt": nt, "class": class, "reqs": fmt.Sprint(len(rs))})
+		map[string]string{"nt": nt, "class": class, "reqs": fmt.Sprint(len(rs)), "bodies": c20bodyLens(reqs)})
 }
 
 const c20form = "application/x-www-form-urlencoded"
@@ -630,6 +630,9 @@ func c20formBody(r *RNG, text string) []byte {
 }
 
 func c20genReq(r *RNG, served bool) c20req {
+	if r.Chance(3) {
+		return c20genBigReq(r) // a body of 0.5-64 KiB (harness/c20_big.go)
+	}
 	var q c20req
 	x := r.Intn(100)
 	switch {
@@ -822,6 +825,8 @@ func c20(c *Ctx) {
 		}
 		c20served(c, c20genTarget(r), reqs, "http-served")
 	}
+	// ---- kind 2, large bodies: the handler decides on the whole body (harness/c20_big.go)
+	c20bigDirected(c, r)
 	// ---- kind 3: one level, many holders (harness/c20_shared.go)
 	c20shared(c, r)
 	if c20panics > 3 {
